@@ -9,7 +9,7 @@ RULE = ("G1 with-programs with 16 `as`-target forms (none, name, attribute, nest
         "parenthesised) x 1-4 items, observed suspended and running on CPython 3.9-3.12; every reported context is matched to "
         "its item through obj. Oracle: the renderer's record of the with-keyword line and the target text; varname must be "
         "None (only for no/unsupported target), or parse (ast) to the same expression modulo Store/Load and List==Tuple, or "
-        "(unsupported/no target only) name a local bound to the manager. Thorough adds a static differential over every with "
+        "(unsupported/no target only) name a local bound to the manager. Both tiers add a static differential (a rotating 1/6 of the files in quick, all in thorough) over every with "
         "statement in the standard library of each interpreter (ast vs analyze_with_blocks). A program is non-trivial when >= 1 "
         "checked context belongs to an item with a non-name target or to a with statement spanning several lines; "
         "distinct = distinct IR.")
@@ -36,7 +36,9 @@ def classify(prog, stats, feats):
 
 
 def run(ctx):
-    out = g1check.run(ctx, CFG, quick_n=400, thorough_n=40000, quick_table=60)
+    out = g1check.run(ctx, CFG, quick_n=960, thorough_n=60000, quick_table=120)
+    from vlib import staticleg
+    staticleg.run(ctx, out, "static.meta", ["3.9", "3.10", "3.11", "3.12"])
     return out
 
 
